@@ -106,7 +106,35 @@ def eval_binary_sections(case):
     return ev
 
 
+def eval_many_hits(case):
+    """More than four megabytes of matched text in one all-matches run (70 000 hits of about 62 characters): the full-text list and
+    the address-only list have the same length and agree element by element, and so do the other modes."""
+    from vlib.render import render
+
+    ev = Eval()
+    n = case["many_hits"]
+    NV = [(format(0x4000000 + 10 * q, "x"), "vfmadd231ps", ["0x12345678(%rax,%rbx,8)", "%zmm30", "%zmm31"]) for q in range(n)] + [(format(0x4000000 + 10 * n, "x"), "ret", [])]
+    sc = jasm_io.scratch()
+    tp = sc.write("c12_many_hits.s", render(NV))
+    rp = sc.write("c12_many_hits_rule.yaml", jasm_io.rule_text(jasm_io.make_doc(["vfmadd231ps"])))
+    res = {}
+    for mode in ("bool", "list"):
+        for search in ("first", "all"):
+            for only in (False, True):
+                res[(mode, search, only)] = jasm_io.match_files(rp, tp, mode=mode, search=search, only_addr=only)
+    ev.subcases = 8
+    lists = agree(ev, res)
+    if lists is not None and len(lists[("all", True)]) != n:
+        ev.dev("all-matches-count", expected=n, observed=len(lists[("all", True)]))
+    ev.tags = ["many-hits"]
+    ev.nontrivial = True
+    ev.keys = [("many-hits", n)]
+    return ev
+
+
 def _zone_worker(case):
+    if "many_hits" in case:
+        return case, eval_many_hits(case)
     if "binary_sections" in case:
         return case, eval_binary_sections(case)
     return case, eval_zone(case)
@@ -121,6 +149,8 @@ def extra(tier, seed, rep):
     todo = [{"zone_cut": c, "rule": r} for c in sorted(cuts, reverse=True) for r in ("pair", "varlen", "ordered-or", "long")]
     # the greedy run across the cut (the rule whose first match a windowed search truncates) at every chunk-size candidate
     todo = [{"zone_cut": c, "rule": "varlen"} for c in sorted(longlist.CUTS, reverse=True) if c not in cuts] + todo
+    todo = [{"many_hits": 70000}] + todo
+    rep.exhaustive_parts.append("one listing with 70 000 hits (4.3 MB of matched text): the 8 modes agree, the lists are complete")
     todo = [{"binary_sections": list(secs_), "rule": r_} for secs_ in ((".text", ".text.hot"), (".text.hot", ".text"), (".text.hot", ".nosuch", ".text")) for r_ in ("ret", "ret-push", "or", "call")] + todo
     rep.exhaustive_parts.append("binary input with 3 section lists in and out of file order x 4 rules (one of them straddling the section boundary): the 8 modes agree")
     with mp.get_context("fork").Pool(16, maxtasksperchild=1) as pool:
@@ -130,6 +160,8 @@ def extra(tier, seed, rep):
 
 
 def evaluate(case):
+    if "many_hits" in case:
+        return eval_many_hits(case)
     if "binary_sections" in case:
         return eval_binary_sections(case)
     if "zone_cut" in case:
